@@ -13,7 +13,8 @@ EXPLANATION = ("R01.1 on every path of every record-emitting body the format out
                "initialisation every rename-reaching step precedes the single open of the log file; R01.4 the writer is replaced only "
                "by the payload of a successful open_log_file, never leaked; R01.5 the rCURRENT index advances iff the rename succeeded "
                "(NotFound tolerated, other errors propagated); R01.6 timestamp infixes that name a rotated file or a file opened with "
-               "truncation pass through the collision check; R01.7 the rotation decision dominates the write. R01.5 also: once index_for_rcurrent returned Ok the stored index is its result on every path (a failing open included); R01.8 the directory listing and filter_files recognise exactly the family (whole-function tables shared with R14.2). R01.9 one clock: every function of the file writer that formats a timestamp into a file name chooses UTC or local time by a boolean input, and at every (transitive) call site that input is the same configuration field - names of the first file and of rotated files sort in the order of logging.")
+               "truncation pass through the collision check; R01.7 the rotation decision dominates the write. R01.5 also: once index_for_rcurrent returned Ok the stored index is its result on every path (a failing open included); R01.8 the directory listing and filter_files recognise exactly the family (whole-function tables shared with R14.2). R01.9 one clock: every function of the file writer that formats a timestamp into a file name chooses UTC or local time by a boolean input, and at every (transitive) call site that input is the same configuration field - names of the first file and of rotated files sort in the order of logging."
+               " R01.10 (shared start table of R06.3/R06.5): at a restart the previous run's current file is looked up under the name this naming writes to and rotated or continued, never truncated.")
 ASSUMPTIONS = ["BufWriter flushes on drop; Write::write_all writes the whole slice or fails (std)", "format functions are total (user code)"]
 NOT_DECIDED = ["equality of concatenated file contents with the logged sequence for all record lengths/buffer sizes",
                "that file names sort in rotation order (r99999 -> r100000, .restart-NNNN vs suffix order)", "more than 9999 same-second restarts"]
